@@ -536,12 +536,12 @@ def install(mon, reach):
     reach.watch(IO.convert_op_to_dict, "convert_op_to_dict", {"complex": r"\"imag\": term\.coefficient\.imag"})
     for f in ("save_operator", "load_operator", "save_operator_set", "load_operator_set"):
         reach.watch(getattr(IO, f), f)
-    reach.watch(PO.PauliTerm.__repr__, "PauliTerm.__repr__", {"constant": r"term_strs\.append\(\"I\"\)"})
-    reach.watch(PO.PauliSum.__repr__, "PauliSum.__repr__", {"empty": r"zero_identity_term = "})
-    reach.watch(PO._parse_operators_and_coefficient, "_parse_operators_and_coefficient")
-    reach.watch(PO._parse_complex, "_parse_complex")
-    reach.watch(PO._parse_operator, "_parse_operator")
-    reach.watch(PO.PauliSum.__init__, "PauliSum.__init__")
+    reach.watch(getattr(PO.PauliTerm, "__repr__", None), "PauliTerm.__repr__", {"constant": r"term_strs\.append\(\"I\"\)"})
+    reach.watch(getattr(PO.PauliSum, "__repr__", None), "PauliSum.__repr__", {"empty": r"zero_identity_term = "})
+    reach.watch(getattr(PO, "_parse_operators_and_coefficient", None), "_parse_operators_and_coefficient")
+    reach.watch(getattr(PO, "_parse_complex", None), "_parse_complex")
+    reach.watch(getattr(PO, "_parse_operator", None), "_parse_operator")
+    reach.watch(getattr(PO.PauliSum, "__init__", None), "PauliSum.__init__")
     reach.watch(U.convert_dict_to_array, "convert_dict_to_array", {"imag": r"1j \* np\.array"})
     reach.watch(U.convert_array_to_dict, "convert_array_to_dict")
     reach.watch(MM.Measurements.save, "Measurements.save")
